@@ -273,7 +273,11 @@ impl TyGen {
         let mut s: String = (0..n).map(|_| alphabet[self.rng.below(alphabet.len() as u64) as usize]).collect();
         if what != "utf8" && n > 0 && self.violate_here() {
             // one illegal character at the first / middle / last position
-            let bad = ['\u{e9}', '\u{0}', '~', '\u{7f}', 'a', '*', '\u{20ac}'];
+            // neighbours of the alphabets and characters from other classes
+            let bad = [
+                '\u{e9}', '\u{0}', '~', '\u{7f}', 'a', '*', '\u{20ac}', '/', ':', '!', '\u{1f}', '&', ';',
+                '<', '>', '@', '[', '`', '{', '\u{80}', '_', '"', '#', '$', '%',
+            ];
             let cs = match what {
                 "ia5" => asn1rs::model::asn::Charset::Ia5,
                 "num" => asn1rs::model::asn::Charset::Numeric,
